@@ -64,6 +64,9 @@ func runUnit(u unit, out *json.Encoder) {
 
 // a run disturbed by a lease renewal (machine stalled for seconds) is repeated, never reported
 func runRetry(c *Case) *Result {
+	if c.Free != nil {
+		return Run(c) // has its own repeat-and-persist policy
+	}
 	var r *Result
 	for i := 0; i < 3; i++ {
 		r = Run(c)
@@ -190,7 +193,43 @@ func Main(prop string) {
 		}
 		fh.Close()
 	}
+	// a child that died (fatal error of the Go runtime such as "concurrent map writes", which no
+	// recover() stops): the unit it was running is the first one of its input without a result
+	for i := 0; i < np; i++ {
+		if fails[i] == "" {
+			continue
+		}
+		done := map[uint64]bool{}
+		for _, l := range lines {
+			done[l.Case.ID] = true
+			if l.Root != 0 {
+				done[l.Root] = true
+			}
+		}
+		for j := i; j < len(units); j += np {
+			u := units[j]
+			if done[u.Case.ID] {
+				continue
+			}
+			var prov []string
+			for _, p := range u.Case.Prov {
+				prov = append(prov, strconv.Itoa(p))
+			}
+			lines = append(lines, outLine{Case: u.Case, Res: &Result{
+				Coq:    fmt.Sprintf("mkCase @ID@%%N %d [%s] false []", u.Case.NT, strings.Join(prov, ";")),
+				Counts: map[string]int{"child-process-died": 1},
+				Direct: []Direct{{What: "the implementation crashed the process", Detail: "while this case was running the harness process died: " + fails[i]}},
+			}})
+			fails[i] = ""
+			break
+		}
+	}
 	sort.SliceStable(lines, func(i, j int) bool { return lines[i].Case.ID < lines[j].Case.ID })
+	type pendingDirect struct {
+		id uint64
+		d  Direct
+	}
+	var pending []pendingDirect
 	rootsDone, rootsTrunc, discarded := 0, 0, 0
 	var id uint64
 	for _, l := range lines {
@@ -223,14 +262,31 @@ func Main(prop string) {
 		} else {
 			s.Count("store:inmem")
 		}
-		if l.Root != 0 {
+		switch {
+		case c.Free != nil:
+			s.Count("mode:free-running")
+		case l.Root != 0:
 			s.Count("mode:exhaustive-exploration")
-		} else {
+		default:
 			s.Count("mode:random-schedule")
 		}
-		for _, d := range l.Res.Direct {
-			s.DirectViolation(c.ID, d.What, d.Detail)
+		if c.LeaseMs > 0 {
+			s.Count("lease:short(200..400ms)")
 		}
+		for _, d := range l.Res.Direct {
+			pending = append(pending, pendingDirect{c.ID, d})
+		}
+	}
+	// the most telling ones first (bin/check reports the first)
+	prio := func(p pendingDirect) int {
+		if p.d.What == "two holders at the same time" || strings.Contains(p.d.Detail, "REMOVED THE RECORD OF A LIVE HOLDER") {
+			return 0
+		}
+		return 1
+	}
+	sort.SliceStable(pending, func(i, j int) bool { return prio(pending[i]) < prio(pending[j]) })
+	for _, p := range pending {
+		s.DirectViolation(p.id, p.d.What, p.d.Detail)
 	}
 	for i, f := range fails {
 		if f != "" {
@@ -301,6 +357,11 @@ func randomCase(prop string, seed uint64, i int) Case {
 	if prop == "C01" && r.Chance(1, 3) {
 		c.Faults = r.Range(1, 2)
 	}
+	lease := 0
+	if c.Faults > 0 && r.Chance(3, 5) {
+		// short real leases: what the implementation schedules for "leaseTTL/10 later" is observed
+		lease = r.Range(200, 400)
+	}
 	for t := 0; t < c.NT; t++ {
 		ns := r.Range(1, 3)
 		L := r.Intn(nl)
@@ -311,6 +372,7 @@ func randomCase(prop string, seed uint64, i int) Case {
 			c.Ops = session(r, t, L, nl, prop, c.Ops)
 		}
 	}
+	c.LeaseMs = lease
 	if prop == "C04" && r.Chance(2, 5) {
 		// one Shutdown somewhere in some program
 		p := r.Intn(np)
@@ -389,6 +451,21 @@ func generate(prop string, fl *hx.Flags) []unit {
 	for i := 0; i < nrand; i++ {
 		id++
 		c := randomCase(prop, fl.Seed, i)
+		c.ID = id
+		us = append(us, unit{Case: c})
+	}
+	// the free-running stream (free.go)
+	nfree := 48
+	if prop == "C04" {
+		nfree = 16
+	}
+	if fl.Tier == "thorough" {
+		nfree *= 8
+	}
+	id += 100000
+	for i := 0; i < nfree; i++ {
+		id++
+		c := freeCase(prop, fl.Seed, i, fl.Tier == "thorough")
 		c.ID = id
 		us = append(us, unit{Case: c})
 	}
